@@ -44,7 +44,12 @@ class SourceModule(Object):
         # the analysis holds a copy of the names of the modules it
         # star-imports: it is as old as the oldest of them
         scope = self.__dict__.get('_scope')
-        if scope is None or self._checking:
+        if scope is None:
+            # analysed inside an import cycle, for one request only: what
+            # copied names from that analysis is as old as that request
+            kept = self.__dict__.get('_ring_scope')
+            return kept is not None and kept[0] != self.project.__dict__.get('_request')
+        if self._checking:
             return False
         self._checking = True
         try:
